@@ -71,6 +71,9 @@ t = T(None, None, temp={"selected": ["a", "b", "c"]}); A.SelectActive()(t); chec
 kids = {"s": bt.Security("s"), "f": bt.FixedIncomeSecurity("f"), "st": bt.Strategy("st")}
 t = T(None, None, children=kids, temp={"selected": ["f", "st", "zz"]}); A.SelectTypes(include_types=(bt.core.SecurityBase,))(t); check("SelectTypes", t.temp["selected"], ["f"], {})
 t = T(None, None, children=kids); A.SelectTypes(include_types=(bt.core.Node,), exclude_types=(bt.core.FixedIncomeSecurity,))(t); check("SelectTypes/exclude", t.temp["selected"], ["s", "st"], {})
+t = T(None, None, children=kids, temp={"selected": []}); A.SelectTypes(include_types=(bt.core.Node,))(t); check("SelectTypes/empty-prior-selection-stays-empty", t.temp["selected"], [], {})
+t = T(None, None, temp={"selected": []}); A.SelectRegex("^a")(t); check("SelectRegex/empty-prior", t.temp["selected"], [], {})
+t = T(None, None, temp={"selected": []}, perm={"closed": {"a"}}); A.SelectActive()(t); check("SelectActive/empty-prior", t.temp["selected"], [], {})
 data = pd.DataFrame([[1.0, 2.0, np.nan]], index=idx[:1], columns=["x1", "x2", "x3"])
 otr = pd.DataFrame([["x2", "x3"]], index=idx[:1], columns=["otr_a", "otr_b"])
 t = T(data, idx[0], temp={"selected": ["otr_a", "x1", "otr_b"]}, extra={"otr": otr}); A.ResolveOnTheRun("otr")(t); check("ResolveOnTheRun", t.temp["selected"], ["x2", "x1"], {})
